@@ -141,6 +141,8 @@ def rule_key_discipline(ctx, rep, rid: str) -> None:
                         rep.ok(rid, key)
                     elif base.split(".")[-1] in ("_properties", "_getters", "_setters", "_elements", "_data"):
                         rep.ok(rid, key)  # the dictionaries / element lists of some object-model instance
+                    elif isinstance(n.value, ast.Name) and any(isinstance(l, ast.For) and isinstance(l.target, ast.Name) and l.target.id == n.value.id and isinstance(l.iter, (ast.Tuple, ast.List)) and l.iter.elts and all(isinstance(e, ast.Attribute) and e.attr in ("_properties", "_getters", "_setters") for e in l.iter.elts) for l in m.own_nodes()):
+                        rep.ok(rid, key)  # a loop variable ranging over the property dictionaries themselves
                     else:
                         rep.bad(rid, key, f"{m.qual} indexes {base} with a computed key", f"{m.module.rel}:{n.lineno}")
 
@@ -1523,7 +1525,8 @@ def rule_converters_convert_members(ctx, rep, rid: str) -> None:
                     if isinstance(x, ast.For) and src in norm(x.iter):
                         lv = {y.id for y in ast.walk(x.target) if isinstance(y, ast.Name)}
                         for c in ast.walk(x):
-                            if isinstance(c, ast.Call) and isinstance(c.func, ast.Attribute) and c.func.attr == "set" and len(c.args) == 2:
+                            if isinstance(c, ast.Call) and isinstance(c.func, ast.Attribute) and len(c.args) == 2 and (c.func.attr == "set" or (isinstance(c.func.value, ast.Name) and any(isinstance(y, ast.Name) and y.id in lv for y in ast.walk(c.args[0])))):
+                                # obj.set(key, value), or another two-argument method of the object model keyed by the member's name
                                 stores.append((c.args[1], c, lv))
                             if isinstance(c, ast.Call) and isinstance(c.func, ast.Attribute) and c.func.attr == "append" and "_elements" in norm(c.func.value) and c.args:
                                 stores.append((c.args[0], c, lv))
@@ -1799,7 +1802,26 @@ def rule_converters_use_object_model(ctx, rep, rid: str) -> None:
                         if cs is not None and cs.kind == "resolved" and cs.targets and all(id(t) in natives for t in cs.targets) and c.args:
                             bad = (c, cs.targets[0])
             if bad is None:
-                rep.ok(rid, key)
+                # the method that stores a dict member must treat every key alike: JSON and host dicts have no special names
+                special = None
+                for s_ in branch.body:
+                    for c in ast.walk(s_):
+                        if isinstance(c, ast.Call) and isinstance(c.func, ast.Attribute) and len(c.args) == 2 and isinstance(c.func.value, ast.Name) and c.func.attr not in ("set",):
+                            for ci in ctx.tree.mod("values").classes.values():
+                                mth = ci.methods.get(c.func.attr)
+                                if mth is None or isinstance(mth.node, ast.Lambda):
+                                    continue
+                                ps = [p_ for p_ in mth.params() if p_ != "self"]
+                                if not ps:
+                                    continue
+                                for cmp_ in mth.own_nodes():
+                                    if isinstance(cmp_, ast.Compare) and len(cmp_.ops) == 1 and isinstance(cmp_.ops[0], (ast.Eq, ast.In)) and norm(cmp_.left) == ps[0] and any(isinstance(x, ast.Constant) and isinstance(x.value, str) for x in ast.walk(cmp_.comparators[0])):
+                                        special = (c, mth, cmp_)
+                if special is not None:
+                    c, mth, cmp_ = special
+                    rep.bad(rid, key, f"{f.qual} stores the members of a host dict with {short(c, 40)}, and {mth.qual} gives some names a meaning of their own (`{short(cmp_, 40)}`): a key of that name in a dict handed to set(), or in a JSON text, changes the object (its prototype) instead of becoming an own property - JSON.parse('{{\"__proto__\": {{\"x\": 1}}}}') has no own member and inherits x", f"{f.module.rel}:{c.lineno}")
+                else:
+                    rep.ok(rid, key)
             else:
                 c, g = bad
                 rep.bad(rid, key, f"{f.qual} builds the script value with {short(c, 50)}, and {g.qual} is the built-in `{natives[id(g)][1]}` that scripts call: it interprets its arguments as a script call does (a single numeric argument of Array is a length), so some host values convert to something else ([3] becomes an array of three undefined)", f"{f.module.rel}:{c.lineno}")
@@ -1869,3 +1891,54 @@ def rule_arrow_this_is_lexical(ctx, rep, rid: str) -> None:
             rep.bad(rid, key, f"{f.qual} reads `{attr}` before it unwraps a bound function: for a bound arrow function the attribute of the wrapper is read, which has none", f"{f.module.rel}:{sets[0].lineno}")
         else:
             rep.ok(rid, key, {"this_value": tv, "from": attr})
+
+
+# ---- deleting an accessor removes both of its halves ------------------------------------------------------------
+def rule_delete_clears_every_table(ctx, rep, rid: str) -> None:
+    """An own property lives in up to two of the object's dictionaries: a data property in the value table, an accessor
+    in the getter table, the setter table or both.  `delete` has to leave the key in none of them: stopping at the
+    first table that knows the key leaves the setter of a get/set pair behind - `in` still answers true and an
+    assignment still runs the stale setter."""
+    rep.rule(rid, "the object model's delete removes the key from the value, getter and setter dictionaries in one call: every removal is reached on the way to the successful return, none is skipped because an earlier dictionary already held the key", floor=1)
+    jo = next((ci for lst in ctx.tree.classes.values() for ci in lst if ci.name == "JSObject"), None)
+    if jo is None or "delete" not in jo.methods:
+        raise AnalysisError(f"{rid}: JSObject.delete not found")
+    f = jo.methods["delete"]
+    tables = ("_properties", "_getters", "_setters")
+    key = f"{f.qual}:all-tables"
+    # form 1: a loop over the dictionaries
+    for l in f.own_nodes():
+        if isinstance(l, ast.For) and isinstance(l.iter, (ast.Tuple, ast.List)) and {e.attr for e in l.iter.elts if isinstance(e, ast.Attribute)} >= {"_getters", "_setters"}:
+            leaves = [x for b in l.body for x in ast.walk(b) if isinstance(x, (ast.Return, ast.Break))]
+            if leaves:
+                rep.bad(rid, key, f"{f.qual} walks the dictionaries and leaves the loop (line {leaves[0].lineno}) at the first one that holds the key: of a get/set pair only the getter is removed, so after `delete o.k` the setter is still there ('k' in o is true, o.k = v runs it)", f"{f.module.rel}:{leaves[0].lineno}")
+            else:
+                rep.ok(rid, key, {"form": "loop over all dictionaries"})
+            return
+    # form 2: one removal per dictionary, all on the way to the final return
+    removals = {}
+    for x in f.own_nodes():
+        for t in tables:
+            if isinstance(x, ast.Delete) and any(f"self.{t}" in norm(tg) for tg in x.targets):
+                removals[t] = x
+            if isinstance(x, ast.Call) and isinstance(x.func, ast.Attribute) and x.func.attr == "pop" and norm(x.func.value) == f"self.{t}":
+                removals[t] = x
+    missing = [t for t in tables if t not in removals]
+    if missing:
+        rep.bad(rid, key, f"{f.qual} never removes the key from self.{missing[0]}: a property kept there survives `delete`", f.loc)
+        return
+    cfg = ctx.facts.cfg(f)
+    order = sorted(removals.values(), key=lambda x: x.lineno)
+    bad = None
+    for a, b in zip(order, order[1:]):
+        an = [nd for nd in cfg.nodes if nd.ast is not None and any(y is a for y in ast.walk(nd.ast))]
+        bn = {nd.id for nd in cfg.nodes if nd.ast is not None and any(y is b for y in ast.walk(nd.ast))}
+        for s0 in an:
+            p = cfg.path_avoiding(s0.id, lambda nd: nd.id == cfg.exit.id, bn, None, start_succ=True)
+            if p is not None and not any(x.kind == "raise" for x in p):
+                bad = (a, b, p)
+    if bad is None:
+        rep.ok(rid, key, {"form": "one removal per dictionary, none skippable"})
+    else:
+        a, b, p = bad
+        rep.bad(rid, key, f"{f.qual} can return after `{short(a, 40)}` without reaching `{short(b, 40)}` (lines {[x.line for x in p if x.line][:6]}): one half of an accessor pair stays behind after `delete`", f"{f.module.rel}:{a.lineno}")
